@@ -115,8 +115,9 @@ def _fletcher_unrolled(rope, results, bound=14):
     cases = []
     for ln in range(bound + 1):
         cells = [rope.at(k) for k in range(ln)]
-        sa = z3.Sum(cells) if cells else z3.IntVal(0)
-        sb = z3.Sum([(ln - k) * c for k, c in enumerate(cells)]) if cells else z3.IntVal(0)
+        sa = z3.Sum(cells) if len(cells) > 1 else (cells[0] if cells else z3.IntVal(0))
+        sb = z3.Sum([(ln - k) * c for k, c in enumerate(cells)]) if len(cells) > 1 else \
+            (cells[0] if cells else z3.IntVal(0))
         cases.append(z3.Implies(n == ln, z3.And(A == sa % 256, B == sb % 256)))
     return z3.And(*cases)
 
@@ -478,7 +479,35 @@ def s_snapshot(ex, obj):
     return ex.st.alloc("obj", obj.cls, fields=dict(rec["fields"]))
 
 
+from pvc.values import FSort as _FSort
+FITS32 = z3.Function("fits_float32", _FSort, z3.BoolSort())  # the float is within single-precision range
+
+
+def s_fits_float32(ex, v):
+    from pvc.values import SFloat, i2f
+    if isinstance(v, SFloat):
+        return SBool(FITS32(v.e))
+    if isinstance(v, float):
+        import struct
+        try:
+            struct.pack("<f", v)
+            return True
+        except OverflowError:
+            return False
+    return SBool(FITS32(i2f(zint(v))))
+
+
+def n_fits_float32(v):
+    import struct
+    try:
+        struct.pack("<f", float(v))
+        return True
+    except (OverflowError, struct.error):
+        return False
+
+
 def install(reg):
+    reg.spec("fits_float32", s_fits_float32, n_fits_float32)
     reg.spec("snapshot", s_snapshot, None)
     reg.spec("cfg_sizecode_invalid", s_cfg_sizecode_invalid, n_cfg_sizecode_invalid)
     reg.spec("cfgname2key_spec", lambda ex, name: n_cfgname2key_spec(name), n_cfgname2key_spec)
